@@ -495,3 +495,375 @@ Proof.
   - intros [y|] ws1; cbn [fst snd]; intros [-> B]; lstep; [lia|]. apply IH; assumption.
 Qed.
 Local Open Scope Z_scope.
+
+(* ================================================================================================ *)
+(* Binomial: BTPE                                                                                    *)
+
+Lemma f64_to_u64_spec e ws lo hi : 0 <= lo -> hi < U64MAX ->
+  (forall x, evalX e = Xreal x -> (IZR lo <= x)%R /\ (x < IZR hi + 1)%R) ->
+  allout (fun q => snd q = ws /\ lo <= fst q <= hi) (fun _ => False) (f64_to_u64 e ws).
+Proof.
+  intros Hlo Hhi H. unfold f64_to_u64, sfloor. cbn [sbind bind allout]. intros x Ex.
+  destruct (H x Ex) as [A B].
+  assert (lo <= Zfloor x) by (apply Zfloor_lub; exact A).
+  assert (Zfloor x < hi + 1).
+  { apply lt_IZR. rewrite plus_IZR. apply Rle_lt_trans with x; [apply Zfloor_lb|exact B]. }
+  replace ((Zfloor x <? 0) || (U64MAX <=? Zfloor x)) with false
+    by (symmetry; apply orb_false_iff; split; [apply Z.ltb_ge|apply Z.leb_gt]; lia).
+  lstep. split; [reflexivity|lia].
+Qed.
+
+(* step 5 only ever returns the candidate it was given, and for a candidate in [0, n] it cannot
+   reach the u64 underflow of step 5.3 *)
+Definition step5_post (y : Z) (ws : list Z) (q : option Z * list Z) : Prop :=
+  snd q = ws /\ match fst q with Some y' => y' = y | None => True end.
+
+Lemma btpe_step5_spec n pe m x_m y v ws : 0 <= y <= n ->
+  allout (step5_post y ws) (fun _ => False) (btpe_step5 n pe m x_m y v ws).
+Proof.
+  intros Hy. unfold btpe_step5. cbv zeta.
+  assert (forall ws', ws' = ws ->
+    allout (step5_post y ws) (fun _ => False)
+      ((gt <- sask CGt v (btpe_f51 n pe m y) ;; if gt then sret None else sret (Some y)) ws')) as S51.
+  { intros ws' ->. lstep. intros x0 y0 _ _. destruct (rcmp CGt x0 y0); lstep; split; auto; reflexivity. }
+  destruct (20 <? Z.abs (y - m)); lstep.
+  - intros x0 y0 _ _. destruct (rcmp CLt x0 y0); cbn [negb]; [|apply S51; reflexivity].
+    lstep. intros x1 y1 _ _. destruct (rcmp CLt x1 y1); lstep; [split; reflexivity|].
+    intros x2 y2 _ _. destruct (rcmp CGt x2 y2); lstep; [split; [reflexivity|exact I]|].
+    destruct (Z.ltb_spec n y) as [L|L]; [lia|]. lstep.
+    intros x3 y3 _ _. destruct (rcmp CGt x3 y3); lstep; split; auto; reflexivity.
+  - apply S51. reflexivity.
+Qed.
+
+Local Open Scope R_scope.
+Lemma u52_range w : word w -> 0 <= IZR (w / 2 ^ 12) * powerRZ 2 (-52) < 1.
+Proof.
+  intros [H0 H1].
+  assert (0 <= w / 2 ^ 12 <= 2 ^ 52 - 1)%Z as [A B].
+  { split; [apply Z.div_pos; lia|]. assert (w / 2 ^ 12 < 2 ^ 52)%Z; [|lia].
+    apply Z.div_lt_upper_bound; [lia|]. change (2 ^ 12 * 2 ^ 52)%Z with (2 ^ 64)%Z. exact H1. }
+  apply IZR_le in A, B. rewrite minus_IZR in B.
+  assert (P : powerRZ 2 (-52) = / IZR (2 ^ 52)).
+  { change (powerRZ 2 (-52)) with (/ 2 ^ 52). rewrite (pow_IZR 2 52). reflexivity. }
+  rewrite P.
+  assert (0 < IZR (2 ^ 52)) by (apply (IZR_lt 0); reflexivity).
+  split.
+  - apply Rmult_le_pos; [exact A|]. left. apply Rinv_0_lt_compat. assumption.
+  - apply Rmult_lt_reg_r with (IZR (2 ^ 52)); [assumption|]. rewrite Rmult_assoc, Rinv_l by lra. simpl (IZR 1) in B. lra.
+Qed.
+Lemma u52_eval w : evalX (Exact (Dy (w / 2 ^ 12) (-52))) = Xreal (IZR (w / 2 ^ 12) * powerRZ 2 (-52)).
+Proof. cbn [evalX]. apply xdy_real. Qed.
+Lemma u52_pos w : word w -> (w / 2 ^ 12 =? 0)%Z = false -> 0 < IZR (w / 2 ^ 12) * powerRZ 2 (-52).
+Proof.
+  intros Hw Hz. apply Z.eqb_neq in Hz. pose proof (u52_range w Hw) as [A _].
+  destruct A as [A|A]; [exact A|]. exfalso. symmetry in A. apply Rmult_integral in A. destruct A as [A|A].
+  - apply eq_IZR_R0 in A. contradiction.
+  - change (powerRZ 2 (-52)) with (/ 2 ^ 52) in A. assert (0 < / 2 ^ 52) by (apply Rinv_0_lt_compat, pow_lt; lra). lra.
+Qed.
+
+Section BtpeLoop.
+Variables (n : Z) (pe : expr) (m : Z).
+Variables (p1 x_m x_l x_r c p2 lambda_l lambda_r p3 p4 : expr).
+Variables (P1 XM XL XR C P2 LL LR P3 P4 : R).
+Hypothesis E_p1 : evalX p1 = Xreal P1.
+Hypothesis E_xm : evalX x_m = Xreal XM.
+Hypothesis E_xl : evalX x_l = Xreal XL.
+Hypothesis E_xr : evalX x_r = Xreal XR.
+Hypothesis E_c : evalX c = Xreal C.
+Hypothesis E_p2 : evalX p2 = Xreal P2.
+Hypothesis E_ll : evalX lambda_l = Xreal LL.
+Hypothesis E_lr : evalX lambda_r = Xreal LR.
+Hypothesis E_p3 : evalX p3 = Xreal P3.
+Hypothesis E_p4 : evalX p4 = Xreal P4.
+Hypothesis Hn : (0 <= n <= U64MAX)%Z.
+Hypothesis HP1 : 0 < P1.
+Hypothesis HXL : XL = XM - P1.
+Hypothesis HXR : XR = XM + P1.
+Hypothesis HXL0 : 0 <= XL.
+Hypothesis HXRn : XR <= IZR n - 1.
+Hypothesis HC : 0 < C.
+Hypothesis HP2 : P2 = P1 * (1 + 2 * C).
+Hypothesis HLL : 0 < LL.
+Hypothesis HP4 : 0 <= P4.
+
+Let post (q : Z * list Z) : Prop := (0 <= fst q <= n)%Z.
+
+Lemma btpe_step5_ret (again : sampler Z) y v ws : (0 <= y <= n)%Z ->
+  (forall ws', ws' = ws -> allout post nopanic (again ws')) ->
+  allout post nopanic
+    ((o <- btpe_step5 n pe m x_m y v ;; match o with Some y => sret y | None => again end) ws).
+Proof.
+  intros Hy Ha. eapply allout_sbind; [apply btpe_step5_spec, Hy|intros ? []|].
+  intros o ws' [A B]. cbn [fst snd] in A, B. subst ws'. destruct o as [y'|].
+  - subst y'. lstep. exact Hy.
+  - apply Ha. reflexivity.
+Qed.
+
+Lemma btpe_loop_spec fuel : forall ws, Forall word ws ->
+  allout post nopanic (btpe_loop n pe fuel m p1 x_m x_l x_r c p2 lambda_l lambda_r p3 p4 ws).
+Proof.
+  induction fuel as [|fu IH]; intros ws Hw; [exact nopanic2|].
+  destruct ws as [|w1 [|w2 ws]]; cbn [btpe_loop]; cbv zeta; lstep; [exact nopanic1|exact nopanic1|].
+  apply Forall_cons_iff in Hw. destruct Hw as [Hw1 Hw']. apply Forall_cons_iff in Hw'. destruct Hw' as [Hw2 Hws].
+  pose proof (u52_range w1 Hw1) as HU1. pose proof (u52_range w2 Hw2) as HV.
+  set (U1 := IZR (w1 / 2 ^ 12) * powerRZ 2 (-52)) in * .
+  set (V := IZR (w2 / 2 ^ 12) * powerRZ 2 (-52)) in * .
+  assert (Eu : evalX (Exact (Dy (w1 / 2 ^ 12) (-52)) *. p4) = Xreal (U1 * P4)).
+  { cbn [evalX xbin]. rewrite xdy_real, E_p4. reflexivity. }
+  assert (Ev : evalX (Exact (Dy (w2 / 2 ^ 12) (-52))) = Xreal V) by apply u52_eval.
+  assert (0 <= U1 * P4) as HU by (apply Rmult_le_pos; lra).
+  (* region select 1 *)
+  intros xu xp Exu Exp. rewrite Eu in Exu. rewrite E_p1 in Exp. injection Exu as <-. injection Exp as <-.
+  unfold rcmp at 1. destruct (Rlt_dec P1 (U1 * P4)) as [G1|G1]; cbn [negb].
+  2: { (* region 1 *)
+    assert (n - 1 < U64MAX)%Z as Hn1 by (unfold U64MAX in * ; lia).
+    eapply allout_mono; [| |apply (f64_to_u64_spec _ ws 0 (n - 1) (Z.le_refl 0) Hn1)].
+    - intros [y rest]; cbn [fst snd]. unfold post. cbn [fst]. lia.
+    - intros ? [].
+    - intros x Ex. cbn [evalX xbin] in Ex. rewrite E_xm, E_p1, xdy_real in Ex. fold V in Ex.
+      rewrite E_p4 in Ex. rewrite xdy_real in Ex. fold U1 in Ex. cbn in Ex. injection Ex as <-.
+      rewrite minus_IZR, Rplus_comm. simpl (IZR 0). simpl (IZR 1).
+      assert (P1 * V < P1) by nra. nra. }
+  (* region select 2 *)
+  lstep. intros xu xp Exu Exp. rewrite Eu in Exu. rewrite E_p2 in Exp. injection Exu as <-. injection Exp as <-.
+  unfold rcmp at 1. destruct (Rlt_dec P2 (U1 * P4)) as [G2|G2]; cbn [negb].
+  2: { (* region 2 *)
+    lstep. intros xv xo _ _. destruct (rcmp CGt xv xo); [apply IH, Hws|].
+    assert (Hx : forall x, evalX (x_l +. (Exact (Dy (w1 / 2 ^ 12) (-52)) *. p4 -. p1) /. c) = Xreal x ->
+                           IZR 0 <= x /\ x < IZR (n - 1) + 1).
+    { intros x Ex. cbn [evalX xbin] in Ex. rewrite E_xl, E_p4, E_p1, E_c, xdy_real in Ex. fold U1 in Ex.
+      change (Xreal U1 * Xreal P4 - Xreal P1)%XR with (Xreal (U1 * P4 - P1)) in Ex.
+      rewrite xdiv_real in Ex by lra. cbn in Ex. injection Ex as <-.
+      rewrite minus_IZR. simpl (IZR 0). simpl (IZR 1).
+      assert (0 < (U1 * P4 - P1) / C) by (apply Rdiv_lt_0_compat; lra).
+      assert ((U1 * P4 - P1) / C <= 2 * P1).
+      { apply Rmult_le_reg_r with C; [lra|]. unfold Rdiv. rewrite Rmult_assoc, Rinv_l by lra. nra. }
+      lra. }
+    assert (n - 1 < U64MAX)%Z as Hn1 by (unfold U64MAX in * ; lia).
+    eapply allout_sbind; [apply (f64_to_u64_spec _ ws 0 (n - 1) (Z.le_refl 0) Hn1 Hx)|intros ? []|].
+    intros y ws' [A Hy]; cbn [fst snd] in A, Hy. subst ws'. apply btpe_step5_ret; [lia|]. intros ? ->. apply IH, Hws. }
+  (* region select 3 *)
+  lstep. intros xu xp Exu Exp. rewrite Eu in Exu. rewrite E_p3 in Exp. injection Exu as <-. injection Exp as <-.
+  unfold rcmp at 1. destruct (Rlt_dec P3 (U1 * P4)) as [G3|G3]; cbn [negb].
+  2: { (* region 3 *)
+    destruct (w2 / 2 ^ 12 =? 0)%Z eqn:VZ; [apply IH, Hws|].
+    pose proof (u52_pos w2 Hw2 VZ) as HV0. fold V in HV0.
+    assert (Ey : evalX (x_l +. eln (Exact (Dy (w2 / 2 ^ 12) (-52))) /. lambda_l) = Xreal (XL + ln V / LL)).
+    { unfold eln. cbn [evalX xbin xun]. rewrite E_xl, E_ll, xdy_real. fold V. rewrite Xln_pos by exact HV0.
+      rewrite xdiv_real by lra. reflexivity. }
+    lstep. intros xy x0 Exy Ex0. rewrite Ey in Exy. rewrite num_eval in Ex0. injection Exy as <-. injection Ex0 as <-.
+    unfold rcmp at 1. destruct (Rlt_dec (XL + ln V / LL) 0) as [Ng|Ng]; [apply IH, Hws|].
+    assert (ln V <= 0) by (rewrite <- ln_1; destruct HV as [_ HV1]; left; apply ln_increasing; lra).
+    assert (ln V / LL <= 0).
+    { unfold Rdiv. rewrite <- (Rmult_0_l (/ LL)). apply Rmult_le_compat_r; [left; apply Rinv_0_lt_compat; lra|lra]. }
+    assert (n - 1 < U64MAX)%Z as Hn1 by (unfold U64MAX in * ; lia).
+    eapply allout_sbind; [apply (f64_to_u64_spec _ ws 0 (n - 1) (Z.le_refl 0) Hn1)|intros ? []|].
+    - intros x Ex. rewrite Ey in Ex. injection Ex as <-. rewrite minus_IZR. simpl (IZR 0). simpl (IZR 1). lra.
+    - intros y ws' [A Hy]; cbn [fst snd] in A, Hy. subst ws'. apply btpe_step5_ret; [lia|]. intros ? ->. apply IH, Hws. }
+  (* region 4 *)
+  destruct (w2 / 2 ^ 12 =? 0)%Z eqn:VZ.
+  { destruct (n <? U64MAX)%Z; [apply IH, Hws|]. lstep. discriminate. }
+  unfold sfloor. cbn [sbind bind allout]. intros x0 _.
+  set (y := Z.min (Z.max (Zfloor x0) 0) U64MAX).
+  destruct (Z.ltb_spec n y) as [L|L]; [apply IH, Hws|].
+  apply btpe_step5_ret; [unfold y in * ; unfold U64MAX in * ; lia|]. intros ? ->. apply IH, Hws.
+Qed.
+End BtpeLoop.
+Local Open Scope Z_scope.
+
+(* ---- the constants of the BTPE set-up ------------------------------------------------------------- *)
+Local Open Scope R_scope.
+Section BtpeSetupR.
+Variables (N p : R).
+Hypothesis Hp : 0 < p <= 1 / 2.
+Hypothesis HA : 10 <= N * p.
+Let q := 1 - p.
+Let V := N * p * q.
+Let S := sqrt V.
+Let e1 := 2195 / 1000 * S - 46 / 10 * q.
+Let fm := N * p + p.
+
+Lemma btpe_N20 : 20 <= N. Proof. destruct Hp. nra. Qed.
+Lemma btpe_V_bounds : 5 <= V /\ V <= N * p /\ V <= N / 4 /\ 10 * q <= V.
+Proof.
+  unfold V, q. destruct Hp as [Hp0 Hp1]. pose proof btpe_N20 as N20.
+  assert (p * (1 - p) <= 1 / 4) as Pq by nra.
+  assert (0 <= (N * p - 10) * (1 / 2 - p)) as M1 by (apply Rmult_le_pos; lra).
+  assert (0 <= (N * p - 10) * (1 - p)) as M2 by (apply Rmult_le_pos; lra).
+  assert (N * (p * (1 - p)) <= N * (1 / 4)) as M3 by (apply Rmult_le_compat_l; lra).
+  repeat split; nra.
+Qed.
+Lemma btpe_S_sq : S * S = V /\ 0 <= S.
+Proof. pose proof btpe_V_bounds as [H _]. split; [apply sqrt_sqrt; lra|apply sqrt_pos]. Qed.
+
+(* p1 = floor(e1) + 1/2 >= 2.5 *)
+Lemma btpe_e1_ge_2 : 2 <= e1.
+Proof.
+  unfold e1. pose proof btpe_S_sq as [SS S0]. pose proof btpe_V_bounds as (V5 & _ & _ & Vq).
+  assert (1 / 2 <= q <= 1) by (unfold q; destruct Hp; lra).
+  (* S >= (2 + 4.6 q) / 2.195 since S^2 >= 10 q >= ((2 + 4.6 q)/2.195)^2 *)
+  destruct (Rle_lt_dec (2 + 46 / 10 * q) (2195 / 1000 * S)) as [G|G]; [lra|]. exfalso.
+  assert ((2195 / 1000 * S) * (2195 / 1000 * S) < (2 + 46 / 10 * q) * (2 + 46 / 10 * q)) by nra.
+  nra.
+Qed.
+(* x_l = m - floor(e1) >= 0 : e1 <= f_m - 1 < m *)
+Lemma btpe_e1_le_fm : e1 <= fm - 1.
+Proof.
+  unfold e1, fm. pose proof btpe_S_sq as [SS S0]. pose proof btpe_V_bounds as (V5 & VA & _ & _).
+  assert (1 / 2 <= q <= 1) by (unfold q; destruct Hp; lra). destruct Hp.
+  destruct (Rle_lt_dec (2195 / 1000 * S) (N * p - 1)) as [G|G]; [lra|]. exfalso. nra.
+Qed.
+(* x_r = m + floor(e1) + 1 <= n - 1 : f_m + e1 <= N - 2 *)
+Lemma btpe_xr_le : fm + e1 <= N - 2.
+Proof.
+  unfold e1, fm. pose proof btpe_S_sq as [SS S0]. pose proof btpe_V_bounds as (V5 & _ & V4 & _).
+  pose proof btpe_N20. assert (1 / 2 <= q <= 1) by (unfold q; destruct Hp; lra). destruct Hp.
+  assert (2195 / 1000 * S <= N / 2 - 2 / 10).
+  { destruct (Rle_lt_dec (2195 / 1000 * S) (N / 2 - 2 / 10)) as [G|G]; [lra|]. exfalso. nra. }
+  unfold q in * . nra.
+Qed.
+End BtpeSetupR.
+Local Open Scope Z_scope.
+
+(* ---- BTPE: the set-up of `btpe` and the complete sampler --------------------------------------------- *)
+Lemma plus_half_eval k : evalX (plus_half k) = Xreal (IZR k + / 2).
+Proof.
+  unfold plus_half. destruct (Z.abs k <? 2 ^ 51).
+  - cbn [evalX]. rewrite xdy_real. f_equal. rewrite plus_IZR, mult_IZR.
+    change (powerRZ 2 (-1)) with (/ (2 * 1))%R. simpl (IZR 2). simpl (IZR 1). field.
+  - cbn [evalX xbin]. rewrite zf_eval, half_eval. reflexivity.
+Qed.
+
+Lemma f64_to_u64_floor e ws :
+  (forall x, evalX e = Xreal x -> (0 <= x)%R /\ (x < IZR U64MAX)%R) ->
+  allout (fun q => snd q = ws /\ exists x, evalX e = Xreal x /\ fst q = Zfloor x) (fun _ => False) (f64_to_u64 e ws).
+Proof.
+  intros H. unfold f64_to_u64, sfloor. cbn [sbind bind allout]. intros x Ex.
+  destruct (H x Ex) as [A B].
+  assert (0 <= Zfloor x) by (apply Zfloor_lub; exact A).
+  assert (Zfloor x < U64MAX).
+  { apply lt_IZR. apply Rle_lt_trans with x; [apply Zfloor_lb|exact B]. }
+  replace ((Zfloor x <? 0) || (U64MAX <=? Zfloor x)) with false
+    by (symmetry; apply orb_false_iff; split; [apply Z.ltb_ge|apply Z.leb_gt]; lia).
+  lstep. split; [reflexivity|]. exists x. split; [exact Ex|reflexivity].
+Qed.
+
+Local Open Scope R_scope.
+Lemma floor_bounds x : IZR (Zfloor x) <= x < IZR (Zfloor x) + 1.
+Proof. split; [apply Zfloor_lb|apply Zfloor_ub]. Qed.
+
+(* BTPE(n, p) for 0 < p <= 1/2, n p >= 10, n a u64: the result is in [0, n]; neither f64_to_u64
+   assertion (set-up, regions 1-3) nor the u64 subtraction of step 5.3 can fail *)
+Theorem btpe_support n pe p flipped ws : evalX pe = Xreal p -> 0 < p <= 1 / 2 -> 10 <= IZR n * p ->
+  (0 <= n <= U64MAX)%Z -> Forall word ws ->
+  allout (fun q => (0 <= fst q <= n)%Z) nopanic (btpe n pe flipped ws).
+Proof.
+  intros Epe Hp HA Hn Hw. unfold btpe. set (N := IZR n) in * .
+  pose proof (btpe_N20 N p Hp HA) as N20.
+  pose proof (btpe_V_bounds N p Hp HA) as (V5 & VA & V4 & Vq).
+  pose proof (btpe_e1_ge_2 N p Hp HA) as E2.
+  pose proof (btpe_e1_le_fm N p Hp HA) as E3.
+  pose proof (btpe_xr_le N p Hp HA) as E4.
+  set (q := 1 - p) in * . set (V := N * p * q) in * .
+  set (e1 := 2195 / 1000 * sqrt V - 46 / 10 * q) in * . set (fm := N * p + p) in * .
+  assert (Enp : evalX (zf n *. pe) = Xreal (N * p)) by (cbn [evalX xbin]; rewrite zf_eval, Epe; reflexivity).
+  assert (Eq : evalX (one -. pe) = Xreal q) by (cbn [evalX xbin]; rewrite one_eval, Epe; reflexivity).
+  assert (Enpq : evalX (zf n *. pe *. (one -. pe)) = Xreal V).
+  { change (evalX (zf n *. pe *. (one -. pe))) with (Xmul (evalX (zf n *. pe)) (evalX (one -. pe))). rewrite Enp, Eq. reflexivity. }
+  assert (Efm : evalX (zf n *. pe +. pe) = Xreal fm).
+  { change (evalX (zf n *. pe +. pe)) with (Xadd (evalX (zf n *. pe)) (evalX pe)). rewrite Enp, Epe. reflexivity. }
+  (* p1k *)
+  unfold sfloor at 1. cbn [sbind bind allout]. intros x1 Ex1.
+  assert (x1 = e1) as ->.
+  { change (evalX (dec 2195 3 *. esqrt (zf n *. pe *. (one -. pe)) -. dec 46 1 *. (one -. pe)))
+      with (Xsub (Xmul (evalX (dec 2195 3)) (evalX (esqrt (zf n *. pe *. (one -. pe)))))
+                 (Xmul (evalX (dec 46 1)) (evalX (one -. pe)))) in Ex1.
+    rewrite (sqrt_eval _ V Enpq) in Ex1 by lra. rewrite Eq, !dec_eval in Ex1 by lia.
+    cbn in Ex1. injection Ex1 as <-. unfold e1. simpl. lra. }
+  set (p1k := Zfloor e1). pose proof (floor_bounds e1) as Fk. fold p1k in Fk.
+  assert (2 <= p1k)%Z as K2 by (apply Zfloor_lub; exact E2).
+  (* m *)
+  eapply allout_sbind; [apply (f64_to_u64_floor _ ws)|intros ? []|].
+  { intros x Ex. rewrite Efm in Ex. injection Ex as <-. split; [unfold fm; destruct Hp; nra|].
+    apply Rlt_le_trans with N; [unfold fm in * ; lra|]. apply IZR_le. lia. }
+  intros m ws' (A & x & Ex & Hm). cbn [fst snd] in A, Hm. subst ws'. rewrite Efm in Ex. injection Ex as <-.
+  pose proof (floor_bounds fm) as Fm. rewrite <- Hm in Fm.
+  set (M := IZR m) in * . set (K := IZR p1k) in * .
+  assert (K <= M - 1) as KM.
+  { assert (p1k < m)%Z; [|unfold K, M; rewrite <- minus_IZR; apply IZR_le; lia].
+    apply lt_IZR. fold K M. lra. }
+  assert (M + K + 2 <= N) as XRN.
+  { assert (m + p1k + 2 <= n)%Z; [|unfold M, K, N; rewrite <- !plus_IZR; apply IZR_le; assumption].
+    assert (m + p1k < n - 1)%Z; [|lia]. apply lt_IZR. rewrite plus_IZR, minus_IZR. fold M K N. simpl (IZR 1). lra. }
+  assert (2 <= K) as K2' by (apply (IZR_le 2); exact K2).
+  (* values of the set-up expressions *)
+  set (P1 := K + / 2). set (XM := M + / 2). set (XL := XM - P1). set (XR := XM + P1).
+  set (C := 134 / 1000 + 205 / 10 / (153 / 10 + M)).
+  set (P2 := P1 * (1 + 2 * C)).
+  set (AL := (fm - XL) / (fm - XL * p)). set (LL := AL * (1 + / 2 * AL)).
+  set (AR := (XR - fm) / (XR * q)). set (LR := AR * (1 + / 2 * AR)).
+  set (P3 := P2 + C / LL). set (P4 := P3 + C / LR).
+  assert (0 <= M) as M0 by (unfold fm in * ; destruct Hp; nra).
+  assert (0 < 153 / 10 + M) as D0 by lra.
+  assert (0 < C) as C0.
+  { unfold C. assert (0 < 205 / 10 / (153 / 10 + M)) by (apply Rdiv_lt_0_compat; [lra|exact D0]). lra. }
+  assert (0 <= XL) as XL0 by (unfold XL, XM, P1; lra).
+  assert (0 < fm - XL) as NL by (unfold XL, XM, P1; lra).
+  assert (0 < fm - XL * p) as DL.
+  { unfold XL, XM, P1. destruct Hp. assert ((M + / 2 - (K + / 2)) * p <= (M + / 2 - (K + / 2)) * (1 / 2)) by (apply Rmult_le_compat_l; lra). nra. }
+  assert (0 < AL) as AL0 by (apply Rdiv_lt_0_compat; assumption).
+  assert (0 < LL) as LL0 by (unfold LL; nra).
+  assert (0 < XR - fm) as NR by (unfold XR, XM, P1; lra).
+  assert (1 / 2 <= q <= 1) as Q by (unfold q; destruct Hp; lra).
+  assert (0 < XR * q) as DR by (unfold XR, XM, P1; nra).
+  assert (0 < AR) as AR0 by (apply Rdiv_lt_0_compat; assumption).
+  assert (0 < LR) as LR0 by (unfold LR; nra).
+  assert (0 < P1) as P10 by (unfold P1; lra).
+  assert (0 < C / LL /\ 0 < C / LR) as [CL CR] by (split; apply Rdiv_lt_0_compat; assumption).
+  assert (0 <= P4) as P40 by (unfold P4, P3, P2; nra).
+  assert (Ep1 : evalX (plus_half p1k) = Xreal P1) by apply plus_half_eval.
+  assert (Exm : evalX (plus_half m) = Xreal XM) by apply plus_half_eval.
+  assert (Exl : evalX (plus_half m -. plus_half p1k) = Xreal XL) by (cbn [evalX xbin]; rewrite Ep1, Exm; reflexivity).
+  assert (Exr : evalX (plus_half m +. plus_half p1k) = Xreal XR) by (cbn [evalX xbin]; rewrite Ep1, Exm; reflexivity).
+  assert (Ec : evalX (dec 134 3 +. dec 205 1 /. (dec 153 1 +. zf m)) = Xreal C).
+  { change (evalX (dec 134 3 +. dec 205 1 /. (dec 153 1 +. zf m)))
+      with (Xadd (evalX (dec 134 3)) (Xdiv (evalX (dec 205 1)) (Xadd (evalX (dec 153 1)) (evalX (zf m))))).
+    rewrite !dec_eval by lia. rewrite zf_eval. fold M.
+    change (IZR (10 ^ 1)) with 10. change (IZR (10 ^ 3)) with 1000.
+    change (Xreal (153 / 10) + Xreal M)%XR with (Xreal (153 / 10 + M)).
+    rewrite xdiv_real by lra. reflexivity. }
+  set (ce := dec 134 3 +. dec 205 1 /. (dec 153 1 +. zf m)) in * .
+  assert (Ep2 : evalX (plus_half p1k *. (one +. num 2 *. ce)) = Xreal P2).
+  { cbn [evalX xbin]. rewrite Ep1, Ec, one_eval, num_eval. reflexivity. }
+  assert (Elam : forall a ra, evalX a = Xreal ra -> evalX (a *. (one +. half *. a)) = Xreal (ra * (1 + / 2 * ra))).
+  { intros a ra Ea. cbn [evalX xbin]. rewrite Ea, one_eval, half_eval. reflexivity. }
+  set (xle := plus_half m -. plus_half p1k) in * . set (xre := plus_half m +. plus_half p1k) in * .
+  set (fme := zf n *. pe +. pe) in * .
+  assert (Eal : evalX ((fme -. xle) /. (fme -. xle *. pe)) = Xreal AL).
+  { cbn [evalX xbin]. rewrite Efm, Exl, Epe.
+    change (Xreal fm - Xreal XL * Xreal p)%XR with (Xreal (fm - XL * p)).
+    change (Xreal fm - Xreal XL)%XR with (Xreal (fm - XL)). rewrite xdiv_real by lra. reflexivity. }
+  assert (Ear : evalX ((xre -. fme) /. (xre *. (one -. pe))) = Xreal AR).
+  { cbn [evalX xbin] in Eq. cbn [evalX xbin]. rewrite Efm, Exr, Eq.
+    change (Xreal XR * Xreal q)%XR with (Xreal (XR * q)).
+    change (Xreal XR - Xreal fm)%XR with (Xreal (XR - fm)). rewrite xdiv_real by lra. reflexivity. }
+  pose proof (Elam _ _ Eal) as Ell. fold LL in Ell. pose proof (Elam _ _ Ear) as Elr. fold LR in Elr.
+  set (lle := (fme -. xle) /. (fme -. xle *. pe) *. (one +. half *. ((fme -. xle) /. (fme -. xle *. pe)))) in * .
+  set (lre := (xre -. fme) /. (xre *. (one -. pe)) *. (one +. half *. ((xre -. fme) /. (xre *. (one -. pe))))) in * .
+  set (p2e := plus_half p1k *. (one +. num 2 *. ce)) in * .
+  assert (Ep3 : evalX (p2e +. ce /. lle) = Xreal P3).
+  { cbn [evalX xbin]. rewrite Ep2, Ec, Ell. rewrite xdiv_real by lra. reflexivity. }
+  assert (Ep4 : evalX (p2e +. ce /. lle +. ce /. lre) = Xreal P4).
+  { change (evalX (p2e +. ce /. lle +. ce /. lre)) with (Xadd (evalX (p2e +. ce /. lle)) (Xdiv (evalX ce) (evalX lre))).
+    rewrite Ep3, Ec, Elr. rewrite xdiv_real by lra. reflexivity. }
+  (* the loop *)
+  cbv zeta.
+  apply allout_sbind with (P := fun q : Z * list Z => (0 <= fst q <= n)%Z) (Q := nopanic).
+  - assert (XR <= IZR n - 1) as XRn by (unfold XR, XM, P1; fold N; lra).
+    exact (btpe_loop_spec n pe m (plus_half p1k) (plus_half m) xle xre ce p2e lle lre (p2e +. ce /. lle)
+             (p2e +. ce /. lle +. ce /. lre) P1 XM XL XR C P2 LL P3 P4 Ep1 Exm Exl Ec Ep2 Ell Ep3 Ep4 Hn P10 eq_refl eq_refl
+             XL0 XRn C0 eq_refl LL0 P40 64%nat ws Hw).
+  - auto.
+  - intros y ws2 Hy. cbn [fst] in Hy. lstep. destruct flipped; lia.
+Qed.
+Local Open Scope Z_scope.
